@@ -107,6 +107,8 @@ def run(ctx):
     per = ctx.pick(2, 2)
     for x in progs:
         x["fset"] = set(json.dumps(f) for f in x["feats"])
+        if "feat" in x:       # a branch witness: the branch it was found for (may carry the overwrite history)
+            x["fset"].add(json.dumps(x["feat"]))
     featcov = collections.defaultdict(collections.Counter)
 
     def choose(semk, cand):
